@@ -6,57 +6,65 @@ Import ListNotations.
 Open Scope string_scope.
 Set Implicit Arguments.
 
-Local Notation rq := (@rd_quat Qc).
-Local Notation r2 := (@rd_v2 Qc).  Local Notation r3 := (@rd_v3 Qc).
-Local Notation rp2 := (@rd_p2 Qc). Local Notation rp3 := (@rd_p3 Qc).
-Local Notation rm2 := (@rd_m2 Qc). Local Notation rm3 := (@rd_m3 Qc). Local Notation rm4 := (@rd_m4 Qc).
-Local Notation rs := (@rd_s Qc).
+Section G.
+  Variable F : Type.
+  Variable O : Ops F.
+  Variable T : Trig F.
+  Variable A : Approx F.
+  Variable toNat : F -> nat.
+
+
+  Local Notation rq := (@rd_quat F).
+  Local Notation r2 := (@rd_v2 F).    Local Notation r3 := (@rd_v3 F).
+  Local Notation rp2 := (@rd_p2 F).   Local Notation rp3 := (@rd_p3 F).
+  Local Notation rm2 := (@rd_m2 F).   Local Notation rm3 := (@rd_m3 F).   Local Notation rm4 := (@rd_m4 F).
+  Local Notation rs := (@rd_s F).
 
 (* Decomposed is flattened as: scale, rot, disp *)
-Definition rd_dec (R V : Type) (rr : rd Qc R) (rv : rd Qc V) : rd Qc (Decomposed Qc R V) :=
+Definition rd_dec (R V : Type) (rr : rd F R) (rv : rd F V) : rd F (Decomposed F R V) :=
   fun l => match rs l with
            | Some (s, l1) => match rr l1 with
                | Some (r, l2) => match rv l2 with Some (d, l3) => Some (mkDec s r d, l3) | None => None end
                | None => None end
            | None => None end.
-Definition odec (R V : Type) (fr : R -> list Qc) (fv : V -> list Qc) (d : Decomposed Qc R V) : val :=
-  vq (d_scale d :: fr (d_rot d) ++ fv (d_disp d)).
-(* option (option X): outer None = panic, inner None = Option::None *)
-Definition oo (X : Type) (f : X -> val) (o : option (option X)) : val :=
-  match o with None => VPanic | Some None => VNone | Some (Some x) => f x end.
+Definition odec (R V : Type) (fr : R -> list F) (fv : V -> list F) (d : Decomposed F R V) : gval F :=
+  GQ (d_scale d :: fr (d_rot d) ++ fv (d_disp d)).
 
 Section Inst.
   Variables R V P : Type.
   Variable RO : RotOps R V P.
-  Variable SO : SpaceOps Qc V P.
-  Variable rr : rd Qc R.  Variable rv : rd Qc V.  Variable rp : rd Qc P.
-  Variable fr : R -> list Qc.  Variable fv : V -> list Qc.  Variable fp : P -> list Qc.
+  Variable SO : SpaceOps F V P.
+  Variable rr : rd F R.  Variable rv : rd F V.  Variable rp : rd F P.
+  Variable fr : R -> list F.  Variable fv : V -> list F.  Variable fp : P -> list F.
   Variable pfx : string.
   Let rdd := rd_dec rr rv.
   Let od := odec fr fv.
-  Definition tab_dec : list (string * (list Qc -> val)) := [
-    (pfx ++ "_transform_vector", run2 rdd rv (fun d v => vq (fv (dec_transform_vector RO SO d v))));
-    (pfx ++ "_transform_point", run2 rdd rp (fun d p => vq (fp (dec_transform_point RO SO d p))));
-    (pfx ++ "_concat", run2 rdd rdd (fun a b => od (dec_concat O RO SO a b)));
-    (pfx ++ "_mul", run2 rdd rdd (fun a b => od (dec_mul O RO SO a b)));
-    (pfx ++ "_concat_self", run2 rdd rdd (fun a b => od (dec_concat O RO SO a b)));
-    (pfx ++ "_one", run0 (S:=Qc) (od (dec_one O RO SO)));
-    (pfx ++ "_inverse_transform", run1 rdd (fun d => oo od (dec_inverse_transform O ApproxQ RO SO d)));
-    (pfx ++ "_inverse_transform_vector", run2 rdd rv (fun d v => oo (fun x => vq (fv x)) (dec_inverse_transform_vector O ApproxQ RO SO d v)))
+  Definition gtab_dec : list (string * (list F -> gval F)) := [
+    (pfx ++ "_transform_vector", grun2 rdd rv (fun d v => GQ (fv (dec_transform_vector RO SO d v))));
+    (pfx ++ "_transform_point", grun2 rdd rp (fun d p => GQ (fp (dec_transform_point RO SO d p))));
+    (pfx ++ "_concat", grun2 rdd rdd (fun a b => od (dec_concat O RO SO a b)));
+    (pfx ++ "_mul", grun2 rdd rdd (fun a b => od (dec_mul O RO SO a b)));
+    (pfx ++ "_concat_self", grun2 rdd rdd (fun a b => od (dec_concat O RO SO a b)));
+    (pfx ++ "_one", grun0 (S:=F) (od (dec_one O RO SO)));
+    (pfx ++ "_inverse_transform", grun1 rdd (fun d => goo od (dec_inverse_transform O A RO SO d)));
+    (pfx ++ "_inverse_transform_vector", grun2 rdd rv (fun d v => goo (fun x => GQ (fv x)) (dec_inverse_transform_vector O A RO SO d v)))
   ].
 End Inst.
 
-Definition tab_c08 : list (string * (list Qc -> val)) :=
-  tab_dec (RotQuat O) (Space3 O) rq r3 rp3 (@quat_sxyz Qc) (@v3_list Qc) (@p3_list Qc) "dq" ++
-  tab_dec (RotBasis3 O) (Space3 O) rm3 r3 rp3 (@m3_list Qc) (@v3_list Qc) (@p3_list Qc) "db3" ++
-  tab_dec (RotBasis2 O) (Space2 O) rm2 r2 rp2 (@m2_list Qc) (@v2_list Qc) (@p2_list Qc) "db2" ++ [
-  ("dq_to_m4", run1 (rd_dec rq r3) (fun d => om4 (m4_of_dec O (m3_of_quat O) d)));
-  ("db3_to_m4", run1 (rd_dec rm3 r3) (fun d => om4 (m4_of_dec O (fun m => m) d)));
-  ("db2_to_m3", run1 (rd_dec rm2 r2) (fun d => om3 (m3_of_dec O (fun m => m) d)));
-  ("m3_inverse_transform_vector3", run2 rm3 r3 (fun m v => opt ov3 (match m3_inverse_transform O m with Some n => Some (m3_transform_vector3 O n v) | None => None end)));
-  ("m3_inverse_transform_vector2", run2 rm3 r2 (fun m v => opt ov2 (match m3_inverse_transform O m with Some n => Some (m3_transform_vector2 O n v) | None => None end)));
-  ("m4_inverse_transform_vector", run2 rm4 r3 (fun m v => opt ov3 (match m4_inverse_transform O m with Some n => Some (m4_transform_vector O n v) | None => None end)))
+Definition gtab_c08 : list (string * (list F -> gval F)) :=
+  gtab_dec (RotQuat O) (Space3 O) rq r3 rp3 (@quat_sxyz F) (@v3_list F) (@p3_list F) "dq" ++
+  gtab_dec (RotBasis3 O) (Space3 O) rm3 r3 rp3 (@m3_list F) (@v3_list F) (@p3_list F) "db3" ++
+  gtab_dec (RotBasis2 O) (Space2 O) rm2 r2 rp2 (@m2_list F) (@v2_list F) (@p2_list F) "db2" ++ [
+  ("dq_to_m4", grun1 (rd_dec rq r3) (fun d => gm4 (m4_of_dec O (m3_of_quat O) d)));
+  ("db3_to_m4", grun1 (rd_dec rm3 r3) (fun d => gm4 (m4_of_dec O (fun m => m) d)));
+  ("db2_to_m3", grun1 (rd_dec rm2 r2) (fun d => gm3 (m3_of_dec O (fun m => m) d)));
+  ("m3_inverse_transform_vector3", grun2 rm3 r3 (fun m v => gopt gv3 (match m3_inverse_transform O m with Some n => Some (m3_transform_vector3 O n v) | None => None end)));
+  ("m3_inverse_transform_vector2", grun2 rm3 r2 (fun m v => gopt gv2 (match m3_inverse_transform O m with Some n => Some (m3_transform_vector2 O n v) | None => None end)));
+  ("m4_inverse_transform_vector", grun2 rm4 r3 (fun m v => gopt gv3 (match m4_inverse_transform O m with Some n => Some (m4_transform_vector O n v) | None => None end)))
 ].
+End G.
+
+Definition tab_c08 : list (string * (list Qc -> val)) := qtab (gtab_c08 OpsQ ApproxQ).
 
 Definition run_c08 : runner := fun f o args =>
   match dispatch tab_c08 f with
